@@ -89,9 +89,13 @@ Definition ok_always (f : list Z) : bool := true.
 Inductive bevent :=
 | BReq (request : list Z)          (* protocol.request(bytes) *)
 | BData (chunk : list Z)           (* transport delivers bytes *)
-| BLost.                           (* connectionLost(reason) *)
+| BLost                            (* connectionLost(reason) *)
+| BCancel (h : nat).               (* .cancel() of the Deferred request() returned as its h-th: the Deferred has no
+                                      canceller (_protocol.py:137), so Twisted errbacks CancelledError and sets
+                                      _suppressAlreadyCalled: the NEXT callback/errback on it is swallowed silently.
+                                      The _pending entry stays: it is the tombstone that keeps a late response "known" *)
 
-Inductive boutcome := BSucc (frame : list Z) | BFailLost.
+Inductive boutcome := BSucc (frame : list Z) | BFailLost | BFailCancelled.
 Inductive boutput :=
 | BWrite (h : nat) (request : list Z)   (* sendString(request) *)
 | BDef (h : nat) (o : boutcome)         (* the Deferred of handle h fires *)
@@ -104,16 +108,17 @@ Record bstate := {
   b_failed : bool;                            (* self._failed is not None *)
   b_rx : list Z;                              (* _unprocessed *)
   b_reqs : list (list Z);                     (* request bytes of every Deferred ever returned (index = handle) *)
-  b_fired : list nat                          (* handles of fired Deferreds *)
+  b_fired : list nat;                         (* handles of fired Deferreds *)
+  b_supp : list nat                           (* handles of cancelled Deferreds whose next firing Twisted will swallow *)
 }.
 
 Definition b_init : bstate :=                 (* connectionMade, _protocol.py:77-79 *)
-  {| b_pending := Some []; b_failed := false; b_rx := []; b_reqs := []; b_fired := [] |}.
+  {| b_pending := Some []; b_failed := false; b_rx := []; b_reqs := []; b_fired := []; b_supp := [] |}.
 
 Definition bfire (s : bstate) (h : nat) (o : boutcome) : bstate * list boutput :=
   if existsb (Nat.eqb h) (b_fired s) then (s, [BErr h])
   else ({| b_pending := b_pending s; b_failed := b_failed s; b_rx := b_rx s; b_reqs := b_reqs s;
-           b_fired := h :: b_fired s |}, [BDef h o]).
+           b_fired := h :: b_fired s; b_supp := b_supp s |}, [BDef h o]).
 
 Fixpoint blookup (k : list Z) (p : list (list Z * nat)) : option nat :=
   match p with
@@ -132,8 +137,13 @@ Definition b_string_received (s : bstate) (frame : list Z) : bstate * list boutp
       match blookup cid p with
       | None => (s, [BLose])                                       (* KeyError branch *)
       | Some h =>
+          if existsb (Nat.eqb h) (b_supp s)
+          then (* d.callback(response) on a cancelled Deferred: swallowed (defer.py: _suppressAlreadyCalled) *)
+               ({| b_pending := Some (bremove cid p); b_failed := b_failed s; b_rx := b_rx s; b_reqs := b_reqs s;
+                   b_fired := b_fired s; b_supp := filter (fun x => negb (Nat.eqb h x)) (b_supp s) |}, [])
+          else
           bfire {| b_pending := Some (bremove cid p); b_failed := b_failed s; b_rx := b_rx s;
-                   b_reqs := b_reqs s; b_fired := b_fired s |} h (BSucc frame)
+                   b_reqs := b_reqs s; b_fired := b_fired s; b_supp := b_supp s |} h (BSucc frame)
       end
   end.
 
@@ -145,13 +155,14 @@ Fixpoint b_deliver (s : bstate) (frames : list (list Z)) : bstate * list boutput
   end.
 
 Definition b_set_rx (s : bstate) (b : list Z) : bstate :=
-  {| b_pending := b_pending s; b_failed := b_failed s; b_rx := b; b_reqs := b_reqs s; b_fired := b_fired s |}.
+  {| b_pending := b_pending s; b_failed := b_failed s; b_rx := b; b_reqs := b_reqs s; b_fired := b_fired s; b_supp := b_supp s |}.
 
 Fixpoint b_fail_all (s : bstate) (p : list (list Z * nat)) : bstate * list boutput :=
   match p with
   | [] => (s, [])
-  | (_, h) :: r => let (s1, o1) := bfire s h BFailLost in
-                   let (s2, o2) := b_fail_all s1 r in (s2, o1 ++ o2)
+  | (_, h) :: r => if existsb (Nat.eqb h) (b_supp s) then b_fail_all s r          (* cancelled: errback swallowed *)
+                   else let (s1, o1) := bfire s h BFailLost in
+                        let (s2, o2) := b_fail_all s1 r in (s2, o1 ++ o2)
   end.
 
 Definition bstep (s : bstate) (e : bevent) : bstate * list boutput :=
@@ -160,7 +171,7 @@ Definition bstep (s : bstate) (e : bevent) : bstate * list boutput :=
       let h := length (b_reqs s) in
       if b_failed s then                                           (* return fail(self._failed) *)
         bfire {| b_pending := b_pending s; b_failed := b_failed s; b_rx := b_rx s;
-                 b_reqs := b_reqs s ++ [request]; b_fired := b_fired s |} h BFailLost
+                 b_reqs := b_reqs s ++ [request]; b_fired := b_fired s; b_supp := b_supp s |} h BFailLost
       else
         let cid := take 4 (drop 4 request) in                      (* request[4:8] *)
         match b_pending s with
@@ -170,7 +181,7 @@ Definition bstep (s : bstate) (e : bevent) : bstate * list boutput :=
             | Some _ => (s, [BRaised 1])                           (* assert correlation_id not in self._pending *)
             | None =>
                 ({| b_pending := Some (p ++ [(cid, h)]); b_failed := b_failed s; b_rx := b_rx s;
-                    b_reqs := b_reqs s ++ [request]; b_fired := b_fired s |}, [BWrite h request])
+                    b_reqs := b_reqs s ++ [request]; b_fired := b_fired s; b_supp := b_supp s |}, [BWrite h request])
             end
         end
   | BData chunk =>
@@ -184,11 +195,20 @@ Definition bstep (s : bstate) (e : bevent) : bstate * list boutput :=
       | _ => (s2, o1)
       end
   | BLost =>                                                       (* _protocol.py:98-105 *)
-      let s1 := {| b_pending := None; b_failed := true; b_rx := b_rx s; b_reqs := b_reqs s; b_fired := b_fired s |} in
+      let s1 := {| b_pending := None; b_failed := true; b_rx := b_rx s; b_reqs := b_reqs s; b_fired := b_fired s;
+                   b_supp := b_supp s |} in
       match b_pending s with
       | None => (s1, [BRaised 2])                                  (* None.values() *)
-      | Some p => b_fail_all s1 p
+      | Some p => let (s2, o2) := b_fail_all s1 p in               (* every swallowed errback has cleared its flag *)
+                  ({| b_pending := b_pending s2; b_failed := b_failed s2; b_rx := b_rx s2; b_reqs := b_reqs s2;
+                      b_fired := b_fired s2; b_supp := [] |}, o2)
       end
+  | BCancel h =>
+      if (h <? length (b_reqs s))%nat && negb (existsb (Nat.eqb h) (b_fired s)) then
+        let (s1, o1) := bfire s h BFailCancelled in
+        ({| b_pending := b_pending s1; b_failed := b_failed s1; b_rx := b_rx s1; b_reqs := b_reqs s1;
+            b_fired := b_fired s1; b_supp := h :: b_supp s1 |}, o1)
+      else (s, [])                                                 (* no such Deferred, or already fired: nothing *)
   end.
 
 Fixpoint brun (s : bstate) (evs : list bevent) : bstate * list boutput :=
@@ -201,7 +221,7 @@ Fixpoint brun (s : bstate) (evs : list bevent) : bstate * list boutput :=
    case lines.
    1 <lp chunk>*                      raw receiver with ok4 (KafkaProtocol): per chunk
                                       0, then per packet 1 <lp packet>, then end code (2 more / 3 limit / 4 raised / 5 fuel)
-   2 <events>                         bootstrap protocol; events 1 <lp request> | 2 <lp chunk> | 3
+   2 <events>                         bootstrap protocol; events 1 <lp request> | 2 <lp chunk> | 3 | 4 h (cancel)
                                       per event 0, then outputs:
                                       1 h <lp request> write | 2 h 1 <lp frame> success | 2 h 2 failure(lost) |
                                       3 lose | 4 kind raised | 5 h AlreadyCalled
@@ -239,6 +259,8 @@ Fixpoint parse_bevents (fuel : nat) (l : list Z) : option (list bevent) :=
                   | Some (c, r2) => match parse_bevents f r2 with Some es => Some (BData c :: es) | None => None end
                   | None => None end
       | 3 :: r => match parse_bevents f r with Some es => Some (BLost :: es) | None => None end
+      | 4 :: h :: r => if h <? 0 then None
+                       else match parse_bevents f r with Some es => Some (BCancel (Z.to_nat h) :: es) | None => None end
       | _ => None
       end
   end.
@@ -248,6 +270,7 @@ Definition enc_bout (o : boutput) : list Z :=
   | BWrite h q => 1 :: Z.of_nat h :: lpz q
   | BDef h (BSucc f) => 2 :: Z.of_nat h :: 1 :: lpz f
   | BDef h BFailLost => [2; Z.of_nat h; 2]
+  | BDef h BFailCancelled => [2; Z.of_nat h; 3]
   | BLose => [3]
   | BRaised k => [4; k]
   | BErr h => [5; Z.of_nat h]
